@@ -435,7 +435,7 @@ def run_shard(spec, ctx):
             combos = [(s, f) for s in OUT_STATES for f in ('p8', 'png')]
             for k in range(spec['lo'], spec['hi']):
                 s, f = combos[k % len(combos)]
-                run_build(ctx, rng, pool, root, list(allx[k]), s, f, (k // 7) % 3 == 0)
+                run_build(ctx, rng, pool, root, list(allx[k]), s, f, (k // 7) % 3 == 0, reuse_namespace=(k % 6 == 5))
                 ctx.feature('matrix_assignments')
         ctx.sample({'argv': ['build', 'out.p8.png', '--lua', 'src1.p8', '--empty-gfx', '--sfx', 'src2.p8.png']})
     finally:
